@@ -68,6 +68,23 @@ def generate(repo, T):
             flag_nan = "true"
         else:
             T.fail("req_sketch::get_quantile range check has an unknown shape: %r" % mq.group(1))
+    # (c) regular req_compactor constructor: initial coin constant (pinned) or drawn (repaired, through the verification hook)
+    mk = re.search(r"req_compactor<T, C, A>::req_compactor\(bool hra, uint8_t lg_weight, uint32_t section_size,.*?hra_\(hra\),(.*?)sorted_\(sorted\),", comp, flags=re.S)
+    flag_coin = "false"
+    if not mk:
+        T.fail("regular req_compactor constructor (initialiser of coin_) not found in req_compactor_impl.hpp")
+    else:
+        g = norm(mk.group(1))
+        if g == "coin_(false),":
+            flag_coin = "false"
+        elif g == "#ifdefDATASKETCHES_VERIFcoin_(random_utils::verif_random_bit()),#elsecoin_(random_utils::random_bit()),#endif":
+            flag_coin = "true"
+        elif g == "coin_(random_utils::random_bit()),":
+            T.fail("req_compactor constructor draws its initial coin but not through the DATASKETCHES_VERIF hook (H3 missing): the harness cannot supply it")
+        else:
+            T.fail("req_compactor constructor initialises coin_ in an unknown shape: %r" % mk.group(1))
+    extra.append("/-- the regular req_compactor constructor draws its initial coin (true) or starts with the constant `coin_(false)` (false) -/")
+    extra.append("def req_INITIAL_COIN_RANDOM : Bool := %s" % flag_coin)
     extra.append("/-- get_quantile rejects a rank unless `rank >= 0 && rank <= 1` (true: NaN rejected) or only if `rank < 0 || rank > 1` (false: NaN passes) -/")
     extra.append("def req_NAN_RANK_REJECTED : Bool := %s" % flag_nan)
     return {"Req.lean": body.replace("\nend DSGen", "\n".join(extra) + "\n\nend DSGen")}
